@@ -729,7 +729,7 @@ def malform(rng, stats, L, R, lk, rk, la, ra, C=None, clk=None, crk=None, numeri
     also applied to EMPTY candidate sets, where an early return could skip a validation"""
     if rng.random() > 0.2:
         return L, R, lk, rk, la, ra, C, clk, crk, None
-    kinds = ['dup_l_key', 'nan_r_key', 'bad_l_attr', 'bad_r_key', 'not_frame_l'] + (['numeric_r_attr'] if numeric else [])
+    kinds = ['dup_l_key', 'numeq_l_key', 'nan_r_key', 'bad_l_attr', 'bad_r_key', 'not_frame_l'] + (['numeric_r_attr'] if numeric else [])
     if C is not None:
         kinds += ['bad_cand_key', 'not_frame_cand', 'empty_cand_dup_key', 'empty_cand_nan_key']
     k = rng.choice(kinds)
@@ -737,6 +737,11 @@ def malform(rng, stats, L, R, lk, rk, la, ra, C=None, clk=None, crk=None, numeri
     if k in ('dup_l_key', 'empty_cand_dup_key') and len(L) >= 2:
         L = L.copy()
         L[lk] = [L[lk].iloc[0]] * len(L)
+    elif k == 'numeq_l_key' and len(L) >= 2:
+        # two key values that are equal as Python numbers but not identical: 1 and 1.0 (or True) — pandas' unique() merges them
+        L = L.copy()
+        a, b = rng.choice([(1, 1.0), (1, True), (0, False), (2.0, 2), (0.0, -0.0)])
+        L[lk] = pd.Series([a, b] + ['zz%d' % i for i in range(len(L) - 2)], dtype=object, index=L.index)
     elif k in ('nan_r_key', 'empty_cand_nan_key') and len(R) >= 1:
         R = R.copy()
         R[rk] = pd.Series([None] + list(R[rk].iloc[1:]), dtype=object, index=R.index)
@@ -878,7 +883,7 @@ def norm_scores(resp):
     return resp
 
 
-DOCUMENTED_EXCEPTION = {'dup_l_key': 'AssertionError', 'nan_r_key': 'AssertionError', 'bad_l_attr': 'AssertionError', 'bad_r_key': 'AssertionError',
+DOCUMENTED_EXCEPTION = {'dup_l_key': 'AssertionError', 'numeq_l_key': 'AssertionError', 'nan_r_key': 'AssertionError', 'bad_l_attr': 'AssertionError', 'bad_r_key': 'AssertionError',
                         'numeric_r_attr': 'AssertionError', 'not_frame_l': 'TypeError', 'bad_cand_key': 'AssertionError', 'not_frame_cand': 'TypeError',
                         'empty_cand_dup_key': 'AssertionError', 'empty_cand_nan_key': 'AssertionError'}
 
@@ -892,7 +897,7 @@ def malformed_accepted(cases):
         if not k:
             continue
         # the malformation may have been impossible to inject (too few rows): then the request is still valid
-        if k in ('dup_l_key', 'empty_cand_dup_key') and len((req.get('ltable') or {}).get('rows', [])) < 2:
+        if k in ('dup_l_key', 'numeq_l_key', 'empty_cand_dup_key') and len((req.get('ltable') or {}).get('rows', [])) < 2:
             continue
         if k in ('nan_r_key', 'empty_cand_nan_key', 'numeric_r_attr') and len((req.get('rtable') or {}).get('rows', [])) < 1:
             continue
